@@ -46,6 +46,12 @@ func rulesC16(c *Ctx) {
 	c.Rule("retry-decision")
 	retryDecision(c, map[string]bool{"decision": true})
 	retryLoop(c, map[string]bool{"returns": true})
+	// the executor-level events describe the result the caller gets: the async runner records exactly what execute
+	// returned (and reported); per-policy events are counted per execution because every execution gets policy
+	// executors of its own
+	executeAsyncRule(c)
+	c.Rule("fresh-executors")
+	c01Self(c)
 }
 
 func c16Executor(c *Ctx) {
